@@ -146,9 +146,13 @@ impl<'a, H: HashChain> InMemoryHssSignature<'a, H> {
         let mut index = 0;
 
         let level =
-            u32::from_be_bytes(read_and_advance(data, 4, &mut index).try_into().unwrap()) as usize;
+            u32::from_be_bytes(read_and_advance(data, 4, &mut index)?.try_into().unwrap()) as usize;
 
         let mut signed_public_keys = ArrayVec::new();
+
+        if level > signed_public_keys.capacity() {
+            return None;
+        }
 
         for _ in 0..level {
             let signed_public_key = InMemoryHssSignedPublicKey::<'a, H>::new(&data[index..])?;
